@@ -143,6 +143,10 @@ type Run struct {
 	NegFailing []string
 	NegTotal   int
 	NegRan     bool
+	// C04 bounded queue stand-in
+	QFailing []string
+	QTotal   int
+	QRan     bool
 	SchemaCount int
 }
 
@@ -273,6 +277,14 @@ func verifyRun(opts *RunOpts) (*Run, error) {
 			run.ExtraNotes = append(run.ExtraNotes, "bounded negotiation stand-in did not run: "+err.Error())
 		} else {
 			run.NegFailing, run.NegTotal, run.NegRan = f, total, true
+		}
+	}
+	if opts.Prop == "C04" {
+		f, total, err := runBoundedQueue(opts)
+		if err != nil {
+			run.ExtraNotes = append(run.ExtraNotes, "bounded queue stand-in did not run: "+err.Error())
+		} else {
+			run.QFailing, run.QTotal, run.QRan = f, total, true
 		}
 	}
 	if opts.Prop == "C05" {
